@@ -55,7 +55,7 @@ def generate(out):
     return info
 
 INTS = ['uint', 'int', 'uintbe', 'intbe', 'uintle', 'intle', 'uintne', 'intne']
-CREATE_ROUTES = ['kw_len', 'kw_name', 'setattr', 'token', 'build', 'pack']
+CREATE_ROUTES = ['kw_len', 'kw_name', 'setattr', 'token', 'build', 'pack', 'pack_kw', 'pack_kw_len']
 READ_ROUTES = ['prop', 'prop_len', 'parse', 'unpack', 'read']
 
 def boundary(rng, name, n):
@@ -79,7 +79,7 @@ def gen_cases(rng, tier):
                'cr': rng.choice(CREATE_ROUTES), 'rr': rng.choice(READ_ROUTES), 'cls': rng.choice(CLASSES), 'upper': rng.random() < 0.3}
     for _ in range(N // 3):
         n = rng.choice([16, 32, 64]); e = rng.choice(['float', 'floatbe', 'floatle', 'floatne'])
-        f = rng.choice([0.0, -0.0, 1.0, -1.5, 0.1, 1e-8, 65504.0, 65520.0, 1e10, 1e39, -1e39, float('inf'), float('-inf'), float('nan'), 5.9604644775390625e-08,
+        f = rng.choice([0.0, -0.0, 1.0, -1.5, 0.1, 1e-8, 65504.0, 65520.0, 65505.0, -65510.0, 65519.99, 3.4028234663852886e38, 3.4028235e38, -3.402823466385289e38, 3.4028235677973362e38, 3.4028235677973366e38, 1.7976931348623157e308, 1e10, 1e39, -1e39, float('inf'), float('-inf'), float('nan'), 5.9604644775390625e-08,
                         rng.uniform(-1e3, 1e3), rng.uniform(-1, 1) * 10 ** rng.randrange(-50, 50), struct.unpack('>d', struct.pack('>Q', rng.getrandbits(64)))[0]])
         yield {'op': 'float', 'name': e, 'n': n, 'f': f.hex() if f == f else 'nan', 'cr': rng.choice(CREATE_ROUTES), 'rr': rng.choice(READ_ROUTES), 'cls': rng.choice(CLASSES)}
     for _ in range(N // 2):
@@ -105,6 +105,9 @@ def create(C, name, n, value, route):
     if route == 'token': return C(f'{tok}={value}') if not isinstance(value, (bytes, Bits)) else C(**{name: value})
     if route == 'build': return C(Dtype(name, n).build(value) if n is not None else Dtype(name).build(value))
     if route == 'pack': return C(pack(tok, value))
+    if route == 'pack_kw': return C(pack(f'{tok}=v', v=value))                      # the value supplied by keyword (also falsy ones: 0, 0.0, False)
+    if route == 'pack_kw_len':
+        return C(pack(f'{name}:n=v', n=n, v=value)) if n is not None else C(pack(f'{name}=v', v=value))
 
 def read(s, name, n, route):
     import bitstring
